@@ -10,13 +10,17 @@ pub struct TkWorld {
     pub env: Env,
     pub tk: Option<Address>,
     pub cursor: usize,
+    /// run the CHECKED-IN wasm blob (what ITS deploys in this repository) instead of the native contract
+    pub blob: bool,
 }
+
+const TOKEN_WASM: &[u8] = include_bytes!("/repo/contracts/interchain-token-service/tests/testdata/interchain_token.wasm");
 
 type R<T, E, F> = Result<Result<Result<T, E>, Result<F, soroban_sdk::InvokeError>>, String>;
 
 impl TkWorld {
     pub fn new() -> Self {
-        TkWorld { env: new_env(), tk: None, cursor: 0 }
+        TkWorld { env: new_env(), tk: None, cursor: 0, blob: false }
     }
     fn client(&self) -> InterchainTokenClient<'static> {
         InterchainTokenClient::new(&self.env, self.tk.as_ref().expect("token not constructed"))
@@ -53,8 +57,13 @@ impl TkWorld {
                 let minter: Option<Address> = if t[3] == "-" { None } else { Some(Addr::parse(t[3]).sdk(&env)) };
                 let token_id: BytesN<32> = b32(&env, &unhx32(t[4]));
                 let md = TokenMetadata { name: sstr(&env, &unhx(t[5])), symbol: sstr(&env, &unhx(t[6])), decimal: pu32(t[7]) };
+                let blob = self.blob;
                 let r = guarded(|| {
-                    env.register_at(&addr, InterchainToken, (owner, minter, token_id, md));
+                    if blob {
+                        env.register_at(&addr, TOKEN_WASM, (owner, minter, token_id, md));
+                    } else {
+                        env.register_at(&addr, InterchainToken, (owner, minter, token_id, md));
+                    }
                 });
                 match r {
                     Ok(()) => {
